@@ -29,6 +29,14 @@ func (r EnvReporter) Report(prop, clause, sig, msg string) {
 	}
 }
 
+// PerReplicaReporter reports every cycle-oracle violation under another property
+// (C19: "every per-replica guarantee holds for each replica on its own").
+type PerReplicaReporter struct{ E *core.Env }
+
+func (r PerReplicaReporter) Report(prop, clause, sig, msg string) {
+	r.E.Violate("per-replica", prop+"/"+clause, "with several replicas, %s of %s is violated: %s", clause, prop, msg)
+}
+
 // Check runs the selected oracles over every replica of the trace.
 func Check(tr *CycleTrace, w Which, r Reporter) {
 	for _, rep := range tr.Replicas {
